@@ -827,8 +827,8 @@ func visitAST(node *sitter.Node, sourceCode []byte, graph *CodeGraph, currentCon
 				for j := 0; j < int(child.ChildCount()); j++ {
 					// typelist node and then iterate through type_identifier node
 					typeList := child.Child(j)
-					for k := 0; k < int(typeList.ChildCount()); k++ {
-						implementedInterface = append(implementedInterface, typeList.Child(k).Content(sourceCode))
+					for k := 0; k < int(typeList.NamedChildCount()); k++ {
+						implementedInterface = append(implementedInterface, typeList.NamedChild(k).Content(sourceCode))
 					}
 				}
 			}
